@@ -49,6 +49,17 @@ fn contexts() -> Vec<&'static str> {
         "IF {e} THEN PRINT 1 ELSE IF 1 THEN PRINT 2 ELSE PRINT 3",
         "IF {e} THEN GOSUB 100 ELSE GOSUB 100",
         "IF {e} THEN FOR I = 1 TO 2 ELSE PRINT 2: NEXT I",
+        // later subscripts of an array reference, in every role an array reference can play
+        "X = M(1,{e})",
+        "M(1,{e}) = 2",
+        "X = M(0,1,{e})",
+        "DIM N(2,{e})",
+        "READ R(1,{e})",
+        "X$ = M$(1,{e})",
+        // replies stored by INPUT (the run is given the replies 42, -7, abc, 2.5 in turn)
+        "INPUT X$: PRINT X$ + {e}",
+        "INPUT T$({e}): PRINT T$(1)",
+        "INPUT X: PRINT X + {e}",
         // a second store to the same name on one line (the first store creates the slot)
         "Y = 1: Y = {e}",
         "Y$ = \"A\": Y$ = {e}",
@@ -162,8 +173,8 @@ fn execute(lines: &[String]) -> RunEnd {
     for l in lines {
         let _ = s.apply(&Ev::Line(l.clone()));
     }
-    let mut none = std::iter::empty();
-    s.run_line("RUN", &mut none, 2000)
+    let mut replies = ["42", "-7", "abc", "2.5"].iter().map(|r| r.to_string()).cycle().take(12);
+    s.run_line("RUN", &mut replies, 2000)
 }
 
 #[derive(Default)]
